@@ -722,7 +722,10 @@ class Executor(object):
 
     def _load_sym(self, st, addr, n):
         if isinstance(addr, Cases):
-            return self.cjoin(addr, lambda a: self.load(st, a, n), n * 8)
+            live = self._live_targets(st, addr, n, False)
+            if len(live.items) == 1:
+                return self.load(st, live.items[0][1], n)
+            return self.cjoin(live, lambda a: self.load(st, a, n), n * 8)
         objs = self._resolve(st, addr, n)
         if objs is None:
             return self._load_flat(st, addr, n)
@@ -734,6 +737,23 @@ class Executor(object):
                 x = self.load(st, a, n)
                 val = x if val is None else self.ite(addr == z3.BitVecVal(a, 64), x, val, n * 8)
         return val
+
+    def _live_targets(self, st, addr, n, writing):
+        """A case-split pointer without the alternatives that point outside every object and
+        are infeasible under the path condition (e.g. the NULL of an `if (p == NULL) return`
+        already passed); a feasible invalid alternative is an error."""
+        keep = []
+        for g, a in addr.items:
+            o = self._object_at(st, a, n)
+            if o is None or (writing and not o[2]):
+                if self.check(g) != z3.unsat:
+                    raise ExecError('%s of %d bytes through a pointer that may be 0x%x (outside any %sobject)'
+                                    % ('store' if writing else 'load', n, a, 'writable ' if writing else ''))
+            else:
+                keep.append((g, a))
+        if not keep:
+            raise ExecError('access through a pointer with no valid target')
+        return Cases(keep, 64)
 
     def _resolve(self, st, addr, n):
         """Objects a symbolic address can point into under the path condition: [(base, size)].
@@ -791,7 +811,10 @@ class Executor(object):
 
     def _store_sym(self, st, addr, n, v):
         if isinstance(addr, Cases):
-            for g, a in addr.items:
+            live = self._live_targets(st, addr, n, True).items
+            if len(live) == 1:
+                return self.store(st, live[0][1], n, v)
+            for g, a in live:
                 self.store(st, a, n, self.ite(g, v, self.load(st, a, n), n * 8))
             return
         self._in_some_object(st, addr, n, True)
@@ -1109,6 +1132,19 @@ class Executor(object):
             if not isinstance(n, int) or not 0 < n <= 256:
                 raise ExecError('__llsym_choice needs a constant bound in 1..256')
             return self.nondet(st, self.cstring(args[0]), args[1], 32, n)
+        if name == '__llsym_pick':          # like choice, but one path per value: concrete result
+            n = args[2]
+            if not isinstance(n, int) or not 0 < n <= 256:
+                raise ExecError('__llsym_pick needs a constant bound in 1..256')
+            v = self.nondet(st, self.cstring(args[0]), args[1], 32, n)
+            if isinstance(v, int):
+                return v
+            for g, x in v.items[1:]:
+                alt = st.copy()
+                alt.frames[-1].env[ins.dest] = x
+                self._fork(alt, g)
+            self._commit(v.items[0][0])
+            return v.items[0][1]
         if name == '__llsym_assume':
             return self.assume(st, args[0])
         if name == '__llsym_assert':
